@@ -224,7 +224,13 @@ namespace
                 }
                 else if constexpr (std::is_same_v<Sh, ShapeTSB>)
                 {
-                    const long i = op[0] == 'a' ? 0 : 1; m.imap[i] = std::stol(op.substr(2)); touched.insert(i); m.child_lmt[i] = c; effective = true;
+                    if (op[0] == 'W')
+                    {
+                        const auto colon = op.find(':');
+                        const std::string xs[2] = {op.substr(1, colon - 1), op.substr(colon + 1)};
+                        for (long i = 0; i < 2; ++i) if (xs[i] != "-") { m.imap[i] = std::stol(xs[i]); touched.insert(i); m.child_lmt[i] = c; effective = true; }
+                    }
+                    else { const long i = op[0] == 'a' ? 0 : 1; m.imap[i] = std::stol(op.substr(2)); touched.insert(i); m.child_lmt[i] = c; effective = true; }
                 }
                 else if constexpr (std::is_same_v<Sh, ShapeTSW>)
                 {
@@ -488,7 +494,8 @@ void verif_enumerate(verif::Ctx &ctx)
         {"tsd", {"s1=5", "s1=6", "s2=5", "e1", "e2", "c", "B"}, 2, th ? 4 : 3},
         {"tsds", {"a1:1", "a1:2", "r1:1", "a2:1", "e1", "e2"}, 2, th ? 4 : 3},
         {"tsl", {"0=1", "0=2", "1=1"}, 2, th ? 5 : 4},
-        {"tsb", {"a=1", "a=2", "b=1"}, 2, th ? 5 : 4},
+        {"tsb", {"a=1", "a=2", "b=1", "W1:1", "W2:1", "W1:-"}, 2, th ? 4 : 3},
+        {"tsb", {"a=1", "b=1", "W1:1", "W2:1", "W1:2"}, 1, th ? 6 : 5},
         {"tsw", {"p1", "p2", "p3"}, 1, th ? 8 : 6},   // one push per evaluation time is the API contract
     };
     // a second slice: longer mutation lists per cycle over fewer cycles (cancellation / resurrection chains)
